@@ -431,7 +431,7 @@ pub fn shards(tier: &str) -> Vec<String> {
         v.push(format!("sched:{k}:s15:b2"));
         // S16: a cache filled before the collection; both threads inside a session of another manager, so that
         // freed slots are handed out again while the collection is still running
-        v.push(format!("sched:{k}:s16:b2"));
+        v.push(format!("sched:{k}:s16:b{}", if tier == "thorough" { 3 } else { 2 }));
     }
     if tier == "thorough" {
         for k in ["bdd", "bcdd", "zbdd"] {
